@@ -77,6 +77,7 @@ class Evaluator:
         self.func = func
         self.params = set(func.params) if func else set()
         self.outer_env = outer_env or {}
+        self.self_class = (func.bound or func.cls) if func else None
 
     # -------------------------------------------------------------- names
     def name(self, n: str, env: dict) -> tuple:
@@ -108,6 +109,10 @@ class Evaluator:
         # a self attribute stored earlier on this path reads back as the stored value
         if base == ("param", "self") and ("self." + e.attr) in env:
             return env["self." + e.attr]
+        if base == ("param", "self") and self.self_class is not None:
+            v = self._class_attr(e.attr)
+            if v is not None:
+                return v
         if base[0] == "ref":
             # attribute of a module-level *variable* of the package stays an attribute access
             # (`_stack.add`), everything else (modules, classes, stdlib objects) folds into a dotted name
@@ -117,6 +122,27 @@ class Evaluator:
                 return T.attr(base, e.attr)
             return T.ref(self.prog.canonical(f"{base[1]}.{e.attr}"))
         return T.attr(base, e.attr)
+
+    def _class_attr(self, attr: str):
+        """`self.x` where x is a plain class-level constant of the concrete class (nearest definition in its MRO) and no
+        method of those classes ever stores self.x: the constant itself (`staticmethod(f)` reads back as f)."""
+        if attr.startswith("__"):
+            return None
+        mro = self.prog.mro(self.self_class)
+        for c in mro:
+            for m in c.methods.values():
+                for n in ast.walk(m.node):
+                    if isinstance(n, ast.Attribute) and isinstance(n.ctx, ast.Store) and n.attr == attr and isinstance(n.value, ast.Name) and n.value.id == "self":
+                        return None
+        for c in mro:
+            if attr in c.methods:
+                return None
+            if attr in c.assigns:
+                v = Evaluator(self.prog, c.module).expr(c.assigns[attr], {})
+                if v is not None and T.is_call_to(v, "builtins.staticmethod") and len(v[2]) == 1:
+                    v = v[2][0]
+                return v
+        return None
 
     def e_Call(self, e, env):
         f = self.expr(e.func, env)
@@ -136,6 +162,11 @@ class Evaluator:
         if inl is not None:
             return inl
         fn = f[1] if f[0] == "ref" else None
+        # "…{}…{:06}…".format(a, b) is the f-string with the same fields
+        if f[0] == "attr" and f[2] == "format" and f[1][0] == "const" and isinstance(f[1][1], str) and not kw and not any(a[0] == "star" for a in args):
+            fs = T.format_to_fstr(f[1][1], args)
+            if fs is not None:
+                return fs
         # x.__getitem__(k) is x[k]
         if f[0] == "attr" and f[2] == "__getitem__" and len(args) == 1 and not kw:
             return ("sub", f[1], args[0])
@@ -263,7 +294,12 @@ class Evaluator:
         return ("unop", _UN.get(type(e.op), "?"), v)
 
     def e_BinOp(self, e, env):
-        return ("binop", _BIN.get(type(e.op), "?"), self.expr(e.left, env), self.expr(e.right, env))
+        left, right = self.expr(e.left, env), self.expr(e.right, env)
+        if isinstance(e.op, ast.Add):
+            cat = T.concat_text(left, right)
+            if cat is not None:
+                return cat
+        return ("binop", _BIN.get(type(e.op), "?"), left, right)
 
     def e_Compare(self, e, env):
         left = self.expr(e.left, env)
@@ -771,7 +807,7 @@ _cache: dict[tuple, list[Path]] = {}
 
 
 def paths_of(prog: Program, func: FuncInfo, outer_env: dict | None = None) -> list[Path]:
-    key = (id(prog), func.qualname, id(outer_env) if outer_env else 0)
+    key = (id(prog), func.qualname, id(outer_env) if outer_env else 0, func.bound.qualname if func.bound else None)
     if key not in _cache:
         pe = PathEnumerator(prog, func, outer_env)
         _cache[key] = _expand_super(prog, func, pe.paths())
@@ -812,6 +848,11 @@ def _expand_super(prog: Program, func: FuncInfo, paths: list[Path], _depth: int 
         def bind(tm, sub=sub):
             return T.rewrite(tm, lambda x: sub.get(x[1]) if x[0] == "param" and x[1] in sub else None)
 
+        concrete = func.bound or func.cls
+        if parent.cls is not None and concrete is not None and parent.cls is not concrete:
+            import dataclasses as _dc
+
+            parent = _dc.replace(parent, bound=concrete)
         for q in paths_of(prog, parent):
             events = list(p.events) + [tuple(bind(x) if isinstance(x, tuple) and x and isinstance(x[0], str) and x[0] in T._OPS else x for x in e) for e in q.events]
             exit_ = q.exit if len(q.exit) == 1 else (q.exit[0], bind(q.exit[1]))
@@ -846,6 +887,59 @@ def closure_paths(prog: Program, outer: FuncInfo, name: str) -> tuple[FuncInfo, 
     if fi is None:
         raise AnalysisError(f"closure {name} not found in {outer.qualname}")
     return fi, PathEnumerator(prog, fi, outer_env=closure_env(prog, outer)).paths()
+
+
+def splice_helpers(prog: Program, paths: list[Path], _depth: int = 0) -> list[Path]:
+    """Paths with calls to private, undecorated, multi-statement module-level helpers of the package replaced by the
+    helper's own paths: the helper's events (parameters bound to the arguments) precede the caller's, and the call term
+    is replaced by the value the helper returns.  Moving a block of statements into such a helper is then invisible to
+    rules that inspect guards, events and result terms (they opt in; event order across the splice is approximate)."""
+    if _depth > 2:
+        return paths
+    out: list[Path] = []
+    changed = False
+
+    def is_term(x):
+        return isinstance(x, tuple) and bool(x) and isinstance(x[0], str) and x[0] in T._OPS
+
+    for p in paths:
+        call = None
+        for tm in p.all_terms():
+            for x in T.walk(tm):
+                if x[0] == "call" and x[1][0] == "ref" and x[1][1].startswith("typelib."):
+                    mn, _, nm = x[1][1].rpartition(".")
+                    mod = prog.modules.get(mn)
+                    fi = mod.functions.get(nm) if mod else None
+                    if fi is not None and nm.startswith("_") and not nm.startswith("__") and not fi.node.decorator_list and not any(a[0] == "star" for a in x[2]):
+                        call = (x, fi)
+                        break
+            if call:
+                break
+        if call is None:
+            out.append(p)
+            continue
+        x, fi = call
+        names = fi.params
+        sigma = dict(zip(names, x[2]))
+        sigma.update({k: v for k, v in x[3] if k})
+        if any(n not in sigma for n in names):
+            out.append(p)
+            continue
+        changed = True
+        for q in paths_of(prog, fi):
+            qev = [tuple(substitute(y, sigma) if is_term(y) else y for y in e) for e in q.events]
+            if q.exit[0] != "return":
+                out.append(Path(qev + list(p.events), q.exit if len(q.exit) == 1 else (q.exit[0], substitute(q.exit[1], sigma)), dict(p.env)))
+                continue
+            r = substitute(q.exit[1], sigma)
+
+            def repl(tm, x=x, r=r):
+                return T.rewrite(tm, lambda y: r if y == x else None)
+
+            pev = [tuple(repl(y) if is_term(y) else y for y in e) for e in p.events]
+            exit_ = p.exit if len(p.exit) == 1 else (p.exit[0], repl(p.exit[1]))
+            out.append(Path(qev + pev, exit_, dict(p.env)))
+    return splice_helpers(prog, out, _depth + 1) if changed else out
 
 
 def block_paths(prog: Program, func: FuncInfo, stmts: list, params: list[str], tag: str) -> list[Path]:
